@@ -57,8 +57,16 @@ def matrixOf : SExp → Option (Option MatrixM)
     pure (some (.lit [] i))
   | _ => none
 
+def kindOf : SExp → Option PKind
+  | .atom "s" => some .str
+  | .atom "b" => some .bool
+  | .atom "c" => some .cond
+  | .list [.atom "n", w] => w.str?.map .number
+  | _ => none
+
 def probeOf : SExp → Option Probe
   | .list [t, k, h] => do pure { tag := (← t.nat?), key := (← k.str?), e := (← exprOf h) }
+  | .list [t, k, h, kd] => do pure { tag := (← t.nat?), key := (← k.str?), e := (← exprOf h), kind := (← kindOf kd) }
   | _ => none
 
 def listOf {α} (f : SExp → Option α) : SExp → Option (List α)
